@@ -23,8 +23,14 @@ class FCtx(object):
         self.cls = fref.cls
         self.module = fref.module
         def resolver(name, m=fref.module):
+            from .known_consts import KNOWN_CONSTS
+            r = model.resolve_name(m, name)
+            if not r or r[0] != "const":
+                return None
+            if "%s.%s" % (r[2].name, r[1]) in KNOWN_CONSTS:
+                return None          # tables of the pinned tree stay loops (the rules know them as such)
             try:
-                return model._module_const(m, name)
+                return model._module_const(r[2], r[1])
             except Exception:
                 return None
         self.ex = T.extract(fref.node, inliner=self._make_inliner(model, fref), const_resolver=resolver)
@@ -62,6 +68,7 @@ class FCtx(object):
         self.ex.loop_guards = dict((k, tuple(g for g in v if not const_guard(g))) for k, v in self.ex.loop_guards.items())
         self._alias_stored_locals()
         self._canon_regex_calls(model)
+        self._fold_version_operands(model)
         for ev in self.events:
             if ev.kind == "unsupported":
                 raise AnalysisError("unsupported statement %s in %s (line %s)" % (ev.value[1], fref.qname, ev.lineno))
@@ -70,6 +77,38 @@ class FCtx(object):
         if fref.cls is not None and args and fref.node.name not in fref.cls.staticmethods:
             self.selfname = args[0].arg
         self.params = [a.arg for a in args]
+
+    def _fold_version_operands(self, model):
+        """``version_tuple < VERSION``: a module constant compared with a version is its value"""
+        module = self.module
+
+        def fn(x):
+            if x[0] == "cmp" and len(x[1]) == 1 and len(x[2]) == 2:
+                a, b = x[2]
+                for i, (p_, q_) in enumerate(((a, b), (b, a))):
+                    if p_[0] == "attr" and p_[2] == "version_tuple" and q_[0] == "global":
+                        r = model.resolve_name(module, q_[1])
+                        if not (r and r[0] == "const"):
+                            # the comparison came from an inlined helper of another module: the one constant of that name
+                            owners = [mm for mm in model.modules.values() if q_[1] in mm.assigns]
+                            r = ("const", q_[1], owners[0]) if len(owners) == 1 else None
+                        if r and r[0] == "const":
+                            try:
+                                v = model._module_const(r[2], r[1])
+                            except Exception:
+                                return None
+                            if isinstance(v, tuple) and all(isinstance(y, int) for y in v):
+                                lit = ("tuple", tuple(("const", y) for y in v))
+                                return ("cmp", x[1], (a, lit) if i == 0 else (lit, b))
+            return None
+        for ev in self.events:
+            for fld in ("value", "target", "raw", "raw_target"):
+                v = getattr(ev, fld)
+                if v is not None:
+                    setattr(ev, fld, T.subst(v, fn))
+            ev.guards = tuple((T.subst(g[0], fn), g[1]) for g in ev.guards)
+            ev.raw_guards = tuple((T.subst(g[0], fn), g[1]) for g in ev.raw_guards)
+        self.ex.loop_guards = dict((k, tuple((T.subst(g[0], fn), g[1]) for g in v)) for k, v in self.ex.loop_guards.items())
 
     def _canon_regex_calls(self, model):
         """applying a compiled pattern is applying its text: CONST_RE.match(x) and re.compile(p).match(x) read re.match(p, x)
@@ -174,7 +213,41 @@ class FCtx(object):
         def generator(fn):
             return any(isinstance(n, (ast.Yield, ast.YieldFrom)) for n in ast.walk(fn))
 
+        def class_of(t):
+            """static class of a term: self, self.<attribute holding an instance>, a back-pointer attribute with one class"""
+            if selfname is not None and t == ("param", selfname):
+                return fref.cls
+            if t[0] == "attr":
+                c = class_of(t[1])
+                if c is None:
+                    return None
+                ia = c.init_attrs(model).get(t[2])
+                if ia is None:
+                    return None
+                k = ia.kind(model)
+                if isinstance(k, tuple) and k[0] == "instance":
+                    return k[1]
+                if k == "param":
+                    cs = model.param_attr_classes(c, t[2])
+                    if len(cs) == 1:
+                        return list(cs)[0]
+            return None
+
         def inliner(func, args, kws):
+            if func[0] == "property":
+                # attribute access that is a property the rules do not know
+                c = class_of(func[1])
+                if c is None:
+                    return None
+                lk = c.lookup(func[2])
+                if lk is None or func[2] not in lk[0].properties:
+                    return None
+                tq = "%s.%s" % (lk[0].qname, func[2])
+                if tq in KNOWN_FUNCS or lk[1] is fref.node or generator(lk[1]) or len(lk[1].args.args) != 1:
+                    return None
+                if any(func[2] in k_.methods and k_ is not lk[0] for k_ in model.subclasses(c)):
+                    return None
+                return lk[1], {lk[1].args.args[0].arg: func[1]}, tq
             target = None
             first = None
             if func[0] == "global":
@@ -301,6 +374,69 @@ class FCtx(object):
                 return TypeMarker("NoneType")
             if fn == "re.compile" and len(args) == 1 and isinstance(args[0], str):
                 return RegexConst(args[0])
+            if fn == "re.escape" and len(args) == 1 and isinstance(args[0], str):
+                import re as _re
+                return _re.escape(args[0])
+            if fn in ("len", "str", "int", "min", "max", "sum", "frozenset", "dict") and len(args) == 1:
+                try:
+                    return {"len": len, "str": str, "int": int, "min": min, "max": max, "sum": sum, "frozenset": frozenset,
+                            "dict": dict}[fn](args[0])
+                except Exception as e:
+                    raise NotConst(str(e))
+        if t[0] == "fmt":
+            # string building from constant pieces
+            out = []
+            for piece in t[1]:
+                v = self.const_of(piece[2]) if piece[0] == "spec" else self.const_of(piece)
+                if piece[0] == "spec":
+                    try:
+                        v = format(v, piece[1][1:]) if piece[1].startswith(":") else repr(v)
+                    except Exception as e:
+                        raise NotConst(str(e))
+                if isinstance(v, RegexConst) or not isinstance(v, (str, int, float, bool, type(None))):
+                    raise NotConst("piece %s of a built string is not a plain constant" % T.show(piece)[:40])
+                out.append(str(v))
+            return "".join(out)
+        if t[0] == "call" and t[1][0] == "attr" and not t[3]:
+            # pure string/mapping methods on constants: ', '.join(TABLE), TABLE.keys() ...
+            meth = t[1][2]
+            if meth in ("join", "keys", "values", "items", "lower", "upper", "strip", "split", "replace", "format", "get"):
+                recv = self.const_of(t[1][1])
+                args = [self.const_of(a) for a in t[2]]
+                if isinstance(recv, (str, dict)):
+                    try:
+                        r = getattr(recv, meth)(*args)
+                    except Exception as e:
+                        raise NotConst(str(e))
+                    return list(r) if meth in ("keys", "values", "items") else r
+        if t[0] == "comp" and len(t[3]) == 1:
+            # a comprehension over a constant table: evaluated row by row
+            names, it, conds = t[3][0]
+            rows = self.const_of(it)
+            var = ("bound", names[1])
+
+            def inst(term, row):
+                def fn(x):
+                    if x == var:
+                        return ("const", row)
+                    if x[0] == "idx" and x[1] == ("const", row) and isinstance(row, (tuple, list)) and x[2] < len(row):
+                        return ("const", row[x[2]])
+                    if x[0] == "sub" and x[2] == ("const", row) and x[1] == it:
+                        try:
+                            return ("const", rows[row])
+                        except Exception:
+                            return None
+                    return None
+                return T.subst(term, fn)
+            out = []
+            for row in (sorted(rows) if isinstance(rows, (set, frozenset)) else list(rows)):
+                if all(self.const_of(inst(c, row)) for c in conds):
+                    out.append(self.const_of(inst(t[2], row)))
+            if t[1] == "set":
+                return set(out)
+            if t[1] == "dict":
+                return dict(out)
+            return out
         raise NotConst("term %s is not constant" % T.show(t))
 
     def try_const(self, t, default=None):
@@ -810,11 +946,28 @@ def gate_term_value(t, version):
         v = gate_term_value(t[2], version)
         return None if v is None else (not v)
     if t[0] == "boolop":
+        # three-valued: a version comparison conjoined with another condition is decided where the comparison decides it
         vals = [gate_term_value(x, version) for x in t[2]]
-        if any(v is None for v in vals):
-            return None
-        return all(vals) if t[1] == "and" else any(vals)
+        if t[1] == "and":
+            if any(v is False for v in vals):
+                return False
+            return True if all(v is True for v in vals) else None
+        if any(v is True for v in vals):
+            return True
+        return False if all(v is False for v in vals) else None
     return None
+
+
+_PROBE_VERSIONS = ((0, 0), (0, 3), (1, 0), (1, 1), (1, 2), (2, 0))
+
+
+def is_pure_gate(t):
+    """a condition made of version comparisons only"""
+    return all(gate_term_value(t, v) is not None for v in _PROBE_VERSIONS)
+
+
+def mentions_version(t):
+    return T.contains(t, lambda x: x[0] == "attr" and x[2] == "version_tuple")
 
 
 def active_at(ev, version):
@@ -827,7 +980,7 @@ def active_at(ev, version):
 
 
 def non_gate_guards(ev):
-    return [g for g in ev.guards if g[0][0] != "exc" and gate_term_value(g[0], (1, 0)) is None]
+    return [g for g in ev.guards if g[0][0] != "exc" and not is_pure_gate(g[0])]
 
 
 def access_path(t, root):
@@ -1642,3 +1795,52 @@ def expand_exists_guard(g):
     name = comp[3][0][0][1]
     elem = ("elem", comp[3][0][1], "exists")
     return [(T.subst(x, lambda y: elem if y == ("bound", name) else None), True) for x in tests]
+
+
+def param_values(model, f, param, depth=0):
+    """the constant values call sites pass for ``param`` of ``f`` (following parameters passed on, depth <= 3); unfoldable
+    arguments are reported as the marker NotConst"""
+    out = []
+    if depth > 3:
+        return [NotConst]
+    name = f.node.name
+    params = [a.arg for a in f.node.args.args]
+    is_method = f.cls is not None and name not in f.cls.staticmethods
+    idx = params.index(param) - (1 if is_method else 0) if param in params else None
+    for g in model.all_functions():
+        for n in ast.walk(g.node):
+            if isinstance(n, ast.Call) and ((isinstance(n.func, ast.Attribute) and n.func.attr == name)
+                                            or (isinstance(n.func, ast.Name) and n.func.id == name)):
+                arg = None
+                for k in n.keywords:
+                    if k.arg == param:
+                        arg = k.value
+                if arg is None and idx is not None and 0 <= idx < len(n.args):
+                    arg = n.args[idx]
+                if arg is None:
+                    continue
+                try:
+                    out.append(model.fold(arg, g.module))
+                    continue
+                except NotConst:
+                    pass
+                pd = _param_derived(g, arg)
+                if pd is not None:
+                    out.extend(param_values(model, g, pd, depth + 1))
+                else:
+                    out.append(NotConst)
+    return out
+
+
+def tuple_in_percent(model, f):
+    """``"... %s ..." % name`` where ``name`` is a parameter that receives a tuple from some call site: the formatting itself
+    raises TypeError (or silently unpacks) -- [(lineno, name)]"""
+    bad = []
+    params = [a.arg for a in f.node.args.args]
+    for n in ast.walk(f.node):
+        if isinstance(n, ast.BinOp) and isinstance(n.op, ast.Mod) and isinstance(n.left, ast.Constant) and isinstance(n.left.value, str) \
+                and isinstance(n.right, ast.Name) and n.right.id in params:
+            vals = param_values(model, f, n.right.id)
+            if any(isinstance(v, tuple) for v in vals):
+                bad.append((n.lineno, n.right.id))
+    return bad
